@@ -311,6 +311,9 @@ MIX = {
     "back-to-back-branches": (lambda: [BEQ(R("b1_rs1"), R("b1_rs2"), 8), BNE(R("b2_rs1"), R("b2_rs2"), 8), ADDI(5, 5, 1), ADDI(6, 6, 1), ADDI(7, 7, 1)], None),
     # (destination registers limited to x0..x9 so that a7 keeps the print code)
     "stall-then-print-ecall": (lambda: [ADD(sym_int("p_rd", 0, 9), R("p_rs1"), R("p_rs2")), ADD(sym_int("c_rd", 0, 9), R("c_rs1"), R("c_rs2")), ECALL(), ADDI(8, 8, 1)], 1),
+    # an ecall squashed while it waits behind a taken branch, then an ecall whose argument is produced right before it
+    "squashed-ecall-then-stall-then-print-ecall": (lambda: [BEQ(R("b_rs1"), R("b_rs2"), 8), ECALL(), ADD(sym_int("p_rd", 0, 10), R("p_rs1"), R("p_rs2")),
+                                                            ADD(sym_int("c_rd", 0, 10), R("c_rs1"), R("c_rs2")), ECALL(), ADDI(8, 8, 1)], 1),
     "wrong-path-stall-cancelled-by-flush": (lambda: [BEQ(R("b_rs1"), R("b_rs2"), 12), ADD(5, 6, 7), ADD(8, 5, 5), ADDI(9, 9, 1), ADD(R("z_rd"), R("z_rs1"), 5)], None),
     "store-then-load-same-address": (lambda: [SW(3, R("v"), 4), LW(R("l_rd"), 3, 4), ADD(R("c_rd"), R("c_rs1"), R("c_rs2"))], None),
     "branch-reads-loaded-value": (lambda: [LW(5, 3, 0), BEQ(5, R("b_rs2"), 8), ADDI(6, 6, 1), ADDI(7, 7, 1)], None),
